@@ -191,11 +191,10 @@ func opcodeAtomic(high byte, mid byte, low byte) opcode.Opcode {
 }
 
 func addrAddImm(a model.Addr, imm int32) model.Addr {
-	if imm >= 0 {
-		return a + model.Addr(imm)
-	} else {
-		return a - model.Addr(-imm)
-	}
+	// Conversion of a negative number to an unsigned type sign extends it, so
+	// the addition wraps around to the right address. Please note that imm
+	// cannot be negated as negation of the minimal int32 value overflows.
+	return a + model.Addr(int64(imm))
 }
 
 func immConst(t immType, i instruction, w expr.Width) expr.Const {
